@@ -32,7 +32,7 @@ import anyio
 import anyio.lowlevel
 from anyio import TaskHandle
 
-from .harness import Boom, classify, flat_leaves
+from .harness import BaseBoom, Boom, classify, flat_leaves
 
 CancelledError = asyncio.CancelledError
 
@@ -122,6 +122,10 @@ class Interp:
             return fn, None
         if kind == "close":
             return (lambda: objs[do[1]].close()), (lambda: do[1] in objs)
+        if kind == "spawn":  # an outside callback starts a task in a group it has a reference to
+            def fn():
+                self.op_spawn("env", ["spawn", do[1], do[2]], "env/spawn")
+            return fn, (lambda: do[1] in objs)
         if kind == "cmd":  # engine C: hand an op to an idle actor
             def fn():
                 self.cmd[do[1]].set_result(do[2])
@@ -240,7 +244,7 @@ class Interp:
                 objs[op[1]].deadline = v
             return self._sync(t, opid, "set_deadline", [op[1], op[2]], f)
         if k == "raise":
-            e = Boom(op[1])
+            e = BaseBoom(op[1]) if len(op) > 2 and op[2] == "base" else Boom(op[1])
             w.ev("x", t, opid, "raise", [op[1]], ["ok", None])
             raise e
         if k == "try":
